@@ -222,7 +222,63 @@ OracleReport(g, a, R, O, bad, bnd) ==
                [contour |-> CHOOSE c \in bad : \A c2 \in bad : c <= c2, n |-> Cardinality(bad),
                 exp |-> R[CHOOSE c \in bad : \A c2 \in bad : c <= c2],
                 obs |-> O[CHOOSE c \in bad : \A c2 \in bad : c <= c2], bnd |-> bnd])}
-OracleAt2(g, a, R, O, S, bnd, nt) ==
+\* ---- different structure: compare the curves themselves.  Both the static build and the variable font approximate
+\* each cubic segment of the master by a quadratic spline within the conversion tolerance tol (1/1000 em), piece i of n
+\* covering the parameter range [i/n, (i+1)/n]; hence at equal parameters the two splines are within 2*tol of each
+\* other, plus 1/2 for the rounding of the static build's points, plus the bound of the property for the variable
+\* font.  Sampled at 1/4, 1/2, 3/4 of every curve segment.  e = expected on-curve points (drawn order), sg = kinds.
+\* parse: sequence of <<kind, index of the start point in o2, number of pieces>>; <<>> = does not parse
+RECURSIVE CurvePieces(_, _, _, _, _, _, _)
+CurvePieces(o2, k, m, e, S, bnd, nt) ==       \* smallest m with o2[k + 2m] an on-curve point within the bound of e; 0 = none
+    IF k + 2 * m > Len(o2) THEN 0
+    ELSE IF o2[k + 2 * m - 1][5] # 0 \/ o2[k + 2 * m][5] # 1 THEN 0
+    ELSE IF PointCoordOK(e, o2[k + 2 * m], S, bnd, nt) THEN m
+    ELSE CurvePieces(o2, k, m + 1, e, S, bnd, nt)
+RECURSIVE ParseSegs(_, _, _, _, _, _, _, _, _)
+RECURSIVE ParseCurve(_, _, _, _, _, _, _, _, _, _)
+ParseSegs(o2, e2, sg, j, k, S, bnd, nt, acc) ==
+    IF j > Len(sg) THEN (IF k = Len(o2) THEN acc ELSE <<>>)
+    ELSE IF sg[j] = 1
+         THEN (IF k + 1 <= Len(o2) /\ o2[k + 1][5] = 1 /\ PointCoordOK(e2[j + 1], o2[k + 1], S, bnd, nt)
+               THEN ParseSegs(o2, e2, sg, j + 1, k + 1, S, bnd, nt, Append(acc, <<1, k, 1>>)) ELSE <<>>)
+    ELSE ParseCurve(o2, e2, sg, j, k, S, bnd, nt, acc, CurvePieces(o2, k, 1, e2[j + 1], S, bnd, nt))
+ParseCurve(o2, e2, sg, j, k, S, bnd, nt, acc, m) ==
+    IF m = 0 THEN <<>> ELSE ParseSegs(o2, e2, sg, j + 1, k + 2 * m, S, bnd, nt, Append(acc, <<3, k, m>>))
+\* 16 * point of piece ((j*n) div 4) at local parameter ((j*n) mod 4)/4: <<xlo, xhi, ylo, yhi>>
+QuadAt(A, B, C, q) ==
+    << (4 - q) * (4 - q) * A[1] + 2 * q * (4 - q) * B[1] + q * q * C[1],
+       (4 - q) * (4 - q) * A[2] + 2 * q * (4 - q) * B[2] + q * q * C[2],
+       (4 - q) * (4 - q) * A[3] + 2 * q * (4 - q) * B[3] + q * q * C[3],
+       (4 - q) * (4 - q) * A[4] + 2 * q * (4 - q) * B[4] + q * q * C[4] >>
+SampleAt(o2, k, n, j) == QuadAt(o2[k + 2 * ((j * n) \div 4)], o2[k + 2 * ((j * n) \div 4) + 1],
+                                o2[k + 2 * ((j * n) \div 4) + 2], (j * n) % 4)
+\* allowed = bnd + 2*16384*(2*tol*S + S/2), tolS = tol * S
+GeoNear(p, r, S, bnd, tolS, nt) ==
+    /\ (p[1] - r[2]) \div 16 <= S * (nt + 4) /\ (r[1] - p[2]) \div 16 <= S * (nt + 4)
+    /\ (p[3] - r[4]) \div 16 <= S * (nt + 4) /\ (r[3] - p[4]) \div 16 <= S * (nt + 4)
+    /\ 2 * F14 * ((p[1] - r[2]) \div 16) <= bnd + F14 * (4 * tolS + S)
+    /\ 2 * F14 * ((r[1] - p[2]) \div 16) <= bnd + F14 * (4 * tolS + S)
+    /\ 2 * F14 * ((p[3] - r[4]) \div 16) <= bnd + F14 * (4 * tolS + S)
+    /\ 2 * F14 * ((r[3] - p[4]) \div 16) <= bnd + F14 * (4 * tolS + S)
+GeoContour3(g, a, c, o2, r2, po, pr, S, bnd, tolS, nt) ==
+    IF po = <<>> \/ pr = <<>> \/ Len(po) # Len(pr)
+    THEN {Fail(g, a.l, "structure", [contour |-> c, exp |-> a.on[c], segs |-> a.segs[c], obs |-> o2, static |-> r2])}
+    ELSE UNION {IF po[i][1] = 1 THEN {}
+                ELSE {Fail(g, a.l, IF a.def = 1 THEN "default-curve" ELSE "curve",
+                           [contour |-> c, segment |-> i, at4 |-> j, font |-> SampleAt(o2, po[i][2], po[i][3], j),
+                            static |-> SampleAt(r2, pr[i][2], pr[i][3], j), bnd |-> bnd])
+                      : j \in {jj \in 1..3 : ~GeoNear(SampleAt(o2, po[i][2], po[i][3], jj),
+                                                        SampleAt(r2, pr[i][2], pr[i][3], jj), S, bnd, tolS, nt)}}
+                : i \in 1..Len(po)}
+GeoContour2(g, a, c, o2, r2, e2, sg, S, bnd, tolS, nt) ==
+    GeoContour3(g, a, c, o2, r2, ParseSegs(o2, e2, sg, 1, 1, S, bnd, nt, <<>>), ParseSegs(r2, e2, sg, 1, 1, S, bnd, nt, <<>>),
+                S, bnd, tolS, nt)
+GeoContour(g, a, c, Oc, Rc, S, bnd, tolS, nt) ==
+    IF Len(Oc) = 0 \/ Len(Rc) = 0 \/ Len(a.on[c]) = 0 THEN {}
+    ELSE GeoContour2(g, a, c, Append(Oc, Oc[1]), Append(Rc, Rc[1]), Append(a.on[c], a.on[c][1]), a.segs[c], S,
+                     IF a.def = 1 THEN 0 ELSE bnd, tolS, nt)
+
+OracleAt2(g, a, R, O, S, bnd, nt, tolS) ==
     IF Len(R) = Len(O) /\ \A c \in 1..Len(R) : Len(R[c]) = Len(O[c])
     THEN OracleReport(g, a, R, O, {c \in 1..Len(R) : Len(R[c]) > 0 /\ ~ContourRotOK(R[c], O[c], a.def, S, bnd, nt)}, bnd)
     ELSE {Fail(g, a.l, "note-structure-differs-from-static", [static |-> Len(R), font |-> Len(O)])}
@@ -231,13 +287,13 @@ OracleAt2(g, a, R, O, S, bnd, nt) ==
                ELSE UNION {IF /\ Len(O[c]) > 0
                               /\ O[c][1][5] = 1
                               /\ SubseqFrom(a.on[c], O[c], 1, 1, S, IF a.def = 1 THEN 0 ELSE bnd, nt)
-                           THEN {}
+                           THEN (IF Len(R) = Len(O) THEN GeoContour(g, a, c, O[c], R[c], S, bnd, tolS, nt) ELSE {})
                            ELSE {Fail(g, a.l, IF a.def = 1 THEN "default-outline" ELSE "coord",
                                       [contour |-> c, exp |-> a.on[c], obs |-> O[c], bnd |-> bnd])}
                            : c \in 1..Len(a.on)})
 OracleAt(rec, g, a) ==
     OracleAt2(g, a, Contours(a.oracle), Contours(Draw(g, a.l)), rec.scale,
-              Bnd(g.tuples, rec.locs[a.l], rec.scale), Len(g.tuples))
+              Bnd(g.tuples, rec.locs[a.l], rec.scale), Len(g.tuples), rec.tol)
 OracleFails(rec, g) == UNION {OracleAt(rec, g, g.at[j]) : j \in 1..Len(g.at)}
 
 \* ---- composite glyph: g.comps[i] = [base (index into rec.glyphs), raw (<<dx, dy>> in glyf)],
@@ -466,6 +522,16 @@ ValSB(rs, r1, base, P, J, halfOK) ==
 ValS(rs, r0, base, P, pi, J, halfOK) ==
     IF pi = 0 THEN 2 * base + (IF halfOK /\ r0 % 8 = 0 THEN 1 ELSE 0)
     ELSE ValSB(rs, Mix(r0, pi), base, P, J, halfOK)
+\* per-point movement pattern of glyph gi (mode = Mix % 4): 0 every point moves, 1 each point independently stays
+\* put (same coordinates in every source) with probability 1/2, 2 exactly one point moves, 3 exactly one point stays.
+\* pn = running number of the point in the glyph, npts = number of points.  (Patterns such as "the start of a curve
+\* moves while its handles and end stay" and "handles stay, end moves" arise from 1 and 2.)
+Stays(X, gi, pn, npts) ==
+    LET mode == Mix(X.h, gi * 17 + 6) % 4 IN
+    IF mode = 0 THEN FALSE
+    ELSE IF mode = 1 THEN Mix3(X.h, gi * 17 + 7, pn) % 2 = 0
+    ELSE IF mode = 2 THEN pn # (Mix(X.h, gi * 17 + 8) % npts) + 1
+    ELSE pn = (Mix(X.h, gi * 17 + 8) % npts) + 1
 \* point coordinate xy (0 = x, 1 = y) of glyph gi
 PtVal(X, gi, key, xy, base, src, halfOK) ==
     IF X.smooth THEN ValS(Mix(X.h, gi * 1000 + 800 + xy), Mix(X.h, key), base, src.p, src.pi, X.J, halfOK)
@@ -491,11 +557,24 @@ GlyphSrcs(X, gi, forceFull) ==
 \* expected drawn order of a source contour: same start point, opposite direction
 Drawn(c) == <<c[1]>> \o Reverse(Tail(c))
 
+ShapePoints(shape) == IF Len(shape) = 0 THEN 1 ELSE IF Len(shape) = 1 THEN Len(shape[1]) ELSE Len(shape[1]) + Len(shape[2])
+PointNo(shape, c, k) == IF c = 1 THEN k ELSE Len(shape[1]) + k      \* shapes have one or two contours
+\* rank of source s among the sources of the glyph in the order of the compiler's location keys (axis tags sorted
+\* alphabetically: opsz, wdth, wght = axes 3, 2, 1)
+RevLess(P, Q) == \E a \in Axes : P[a] < Q[a] /\ \A b \in (a + 1)..NAxes : P[b] = Q[b]
+RankOf(srcs, s) == Cardinality({s2 \in 1..Len(srcs) : RevLess(srcs[s2].p, srcs[s].p)})
 \* one source of glyph gi (table row t) at src (record p, m, pi); pat: 0 all advances equal, 1 one source
-\* differs, 2 general; odd: the index of the source that differs
-SrcRec(X, gi, t, src, s, pat, odd) ==
+\* differs, 2 general, 3 by rank; odd: the index of the source that differs; rank: see RankOf
+SrcRec(X, gi, t, src, s, pat, odd, rank) ==
     [p |-> src.p, m |-> src.m,
      c2 |-> Force([c \in 1..Len(t.shape) |-> Force([k \in 1..Len(t.shape[c]) |->
+               IF Stays(X, gi, PointNo(t.shape, c, k), ShapePoints(t.shape))
+               THEN <<ValA(Mix(X.h, gi * 1000 + c * 100 + k * 2), t.shape[c][k][1], src.p, 0, X.J,
+                           X.halfOK /\ t.kind \in {"line", "quad"}),
+                      ValA(Mix(X.h, gi * 1000 + c * 100 + k * 2 + 1), t.shape[c][k][2], src.p, 0, X.J,
+                           X.halfOK /\ t.kind \in {"line", "quad"}),
+                      t.shape[c][k][3]>>
+               ELSE
                <<PtVal(X, gi, gi * 1000 + c * 100 + k * 2, 0, t.shape[c][k][1], src,
                        X.halfOK /\ t.kind \in {"line", "quad"}),
                  PtVal(X, gi, gi * 1000 + c * 100 + k * 2 + 1, 1, t.shape[c][k][2], src,
@@ -507,6 +586,9 @@ SrcRec(X, gi, t, src, s, pat, odd) ==
      w2 |-> IF pat = 0 THEN 2 * (IF t.kind = "empty" /\ X.fillSame THEN 333 ELSE t.adv)
             ELSE IF pat = 1 THEN 2 * (IF t.kind = "empty" /\ X.fillSame THEN 333 ELSE t.adv)
                                  + (IF s = odd /\ s # 1 THEN 75 ELSE 0)
+            \* 3: the advance depends only on the rank of the source in location order, so glyphs with different
+            \* source sets of the same size have the same advance sequence
+            ELSE IF pat = 3 THEN 2 * ((IF t.kind = "empty" /\ X.fillSame THEN 333 ELSE t.adv) + 37 * rank)
             ELSE Val2(X.h, IF t.kind = "empty" /\ X.fillSame THEN 990 ELSE gi * 1000 + 990,
                       IF t.kind = "empty" /\ X.fillSame THEN 333 ELSE t.adv, src.p, src.pi,
                       IF X.J = 0 THEN 3 ELSE X.J, X.halfOK),
@@ -520,6 +602,12 @@ RoundedPts(x) ==
 ExpRec2(t, x, pts, vert) ==
     [pts |-> IF t.kind \in {"line", "quad"} THEN pts ELSE <<>>,
      on |-> IF t.kind = "cubic" THEN Force([c \in 1..Len(pts) |-> SelectSeq(pts[c], LAMBDA q : q[3] = 1)]) ELSE <<>>,
+     \* kind (1 line, 2 qcurve, 3 curve) of the drawn segment that STARTS at each on-curve point, drawn order
+     \* (= the type of that point in the source, because the drawn direction is the opposite one)
+     segs |-> IF t.kind = "cubic"
+              THEN Force([c \in 1..Len(x.c2) |-> SelectSeq(Drawn(Force([k \in 1..Len(x.c2[c]) |-> x.c2[c][k][3]])),
+                                                            LAMBDA ty : ty # 0)])
+              ELSE <<>>,
      offs |-> Force([i \in 1..Len(x.o2) |-> <<Rnd2(x.o2[i][1]), Rnd2(x.o2[i][2])>>]),
      w |-> Rnd2(x.w2), h |-> IF vert = 1 THEN Rnd2(x.h2) ELSE -1]
 ExpRec(t, x, vert) == ExpRec2(t, x, RoundedPts(x), vert)
@@ -527,9 +615,12 @@ GlyphRec3(X, t, ss) ==
     [name |-> t.name, kind |-> t.kind, comps |-> Force([i \in 1..Len(t.comps) |-> t.comps[i][1]]),
      srcs |-> ss, exp |-> Force([s \in 1..Len(ss) |-> ExpRec(t, ss[s], X.vert)])]
 GlyphRec2(X, gi, t, srcs, pat, odd) ==
-    GlyphRec3(X, t, Force([s \in 1..Len(srcs) |-> SrcRec(X, gi, t, srcs[s], s, pat, odd)]))
+    GlyphRec3(X, t, Force([s \in 1..Len(srcs) |-> SrcRec(X, gi, t, srcs[s], s, pat, odd, RankOf(srcs, s))]))
 GlyphRec1(X, gi, t, srcs) ==
-    GlyphRec2(X, gi, t, srcs, IF X.c4 THEN Mix(X.h, gi * 17 + 13) % 3 ELSE 2, (Mix(X.h, gi * 17 + 15) % Len(srcs)) + 1)
+    \* C04: pattern 0..3 per glyph; fillers that share their advances (fillSame) also share one pattern
+    GlyphRec2(X, gi, t, srcs,
+              IF ~X.c4 THEN 2 ELSE IF t.kind = "empty" /\ X.fillSame THEN Mix(X.h, 90) % 4 ELSE Mix(X.h, gi * 17 + 13) % 4,
+              (Mix(X.h, gi * 17 + 15) % Len(srcs)) + 1)
 GlyphRec(X, gi, t) ==
     GlyphRec1(X, gi, t, IF t.name = ".notdef" /\ X.notdef = "default" THEN <<SrcOfMaster(X, 1)>>
                         ELSE GlyphSrcs(X, gi, \/ t.kind = "empty" /\ X.fillSame /\ Mix(X.h, gi * 17 + 3) % 4 # 0
